@@ -20,6 +20,7 @@ import PqModel.DeltaAmd64
   `notok` (the description is not a well-formed `ConfStream`): bytes and meaning of a stream of the conformant
   family (PqModel/DeltaConf.lean). `<blocks>`: `-` or blocks separated by `|`, each `<min delta>:<minis>:<stale>`,
   `<minis>` separated by `;`, each `<width>/<packed values>`; `<stale>` = width bytes of the unneeded miniblocks.
+* `dba.godecflbaamd64 <size> <hex>` -> as `dba.godecamd64` for `DecodeFixedLenByteArray` (wrapper `amd64FlbaVals`)
 * `dba.godecamd64 <hex>` -> `ok <values>` | `err <class>`: mirror of `DecodeByteArray` as the assembly build runs it
   (amd64 Go wrapper with the AVX2 kernels replaced by their contract, PqModel/DeltaAmd64.lean)
 * `delta.unpack32 <width> <n> <hex>` / `delta.unpack64 …` -> `ok <unsigned values>`: the mirror of the portable
@@ -112,6 +113,13 @@ def handle (toks : List String) : Option String :=
       | .ok vs => s!"ok {showVals vs}"
       | .error e => s!"err {goErrName e}"
     | none => "bad-op"
+  | ["dba.godecflbaamd64", sz, h] => some <|
+    match parseNat? sz, parseHex? h with
+    | some sz, some bs =>
+      match goDecodeFLBAamd64 sz (bytesIn bs) with
+      | .ok vs => s!"ok {showVals vs}"
+      | .error e => s!"err {goErrName e}"
+    | _, _ => "bad-op"
   | ["delta.unpack32", w, n, h] => some <|
     match parseNat? w, parseNat? n, parseHex? h with
     | some w, some n, some bs => s!"ok {showList toString (PqModel.Rle.goUnpackInt32 w n (bytesIn bs))}"
